@@ -3,10 +3,13 @@
 //! stall) while N requests are in flight.  Records what every client future returned and the byte
 //! level trace of every pool connection, for the extracted connection model (ocaml/c10/driver).
 //!
-//! case line:  F <nodes> <shards> <n> <j> <fault> <off> <pad> <delay> <idem> <prep> <late> <seed>
+//! case line:  F <nodes> <shards> <n> <j> <fault> <off> <pad> <delay> <idem> <prep> <late> <cancel> <seed>
 //!   fault: none | fin | rst | ver<hexbyte> | unsol | stall | garb<hexbytes>
+//!          | slow (no fault: requests from the j-th on are answered after 80 ms)
+//!          | ccfin | ccrst (the CONTROL connection is cut while the requests are in flight)
+//!   cancel: the last <cancel> client futures are dropped 3 ms after the start (orphaned stream ids)
 //! observation (after '|'):
-//!   res=<r1>,..,<rn>   r = ok:<marker>:<padlen>:<padok> | err:<class> | hang
+//!   res=<r1>,..,<rn>   r = ok:<marker>:<padlen>:<padok> | err:<class> | hang | cancelled
 //!   fu=ok|err  tmax=<ms>  bound=<ms>  px=<body prefix length>
 //!   conns=<conn>;<conn>..   conn = <node>.<connid>:<ev>,<ev>..
 //!     ev = i<stream>.<rid> request frame (rid = marker, or -k for handshake frames)
@@ -42,19 +45,20 @@ struct Case {
     idem: bool,
     prep: bool,
     late: u8,
+    cancel: usize,
     seed: u64,
 }
 
 impl Case {
     fn line(&self) -> String {
         format!(
-            "F {} {} {} {} {} {} {} {} {} {} {} {}",
-            self.nodes, self.shards, self.n, self.j, self.fault, self.off, self.pad, self.delay, self.idem as u8, self.prep as u8, self.late, self.seed
+            "F {} {} {} {} {} {} {} {} {} {} {} {} {}",
+            self.nodes, self.shards, self.n, self.j, self.fault, self.off, self.pad, self.delay, self.idem as u8, self.prep as u8, self.late, self.cancel, self.seed
         )
     }
     fn parse(s: &str) -> Option<Case> {
         let f: Vec<&str> = s.split_whitespace().collect();
-        if f.len() != 13 || f[0] != "F" {
+        if f.len() != 14 || f[0] != "F" {
             return None;
         }
         Some(Case {
@@ -69,7 +73,8 @@ impl Case {
             idem: f[9] == "1",
             prep: f[10] == "1",
             late: f[11].parse().ok()?,
-            seed: f[12].parse().ok()?,
+            cancel: f[12].parse().ok()?,
+            seed: f[13].parse().ok()?,
         })
     }
 }
@@ -228,8 +233,11 @@ async fn run_case(c: Case) -> String {
             }
             let k = st.arrivals;
             st.arrivals += 1;
-            if k < c.j || c.fault == "none" {
+            if k < c.j || c.fault == "none" || c.fault.starts_with("cc") {
                 return Some(vec![echo(&c, marker)]);
+            }
+            if c.fault == "slow" {
+                return Some(vec![Action::Delay(80), echo(&c, marker)]);
             }
             st.fault_conn = Some(ctx.conn_id);
             let mut a = vec![Action::Delay(c.delay)];
@@ -258,6 +266,22 @@ async fn run_case(c: Case) -> String {
             (r, t0.elapsed().as_millis() as u64)
         }));
     }
+    if c.fault.starts_with("cc") {
+        tokio::time::sleep(Duration::from_millis(c.delay)).await;
+        let how = if c.fault == "ccfin" { CutKind::Fin } else { CutKind::Rst };
+        for ci in cluster.connections(None) {
+            if !ci.registered.is_empty() {
+                cluster.close_connection(ci.node, ci.conn_id, how);
+            }
+        }
+    }
+    let ncancel = c.cancel.min(c.n);
+    if ncancel > 0 {
+        tokio::time::sleep(Duration::from_millis(3)).await;
+        for h in handles.iter().skip(c.n - ncancel) {
+            h.abort();
+        }
+    }
     let mut res = Vec::new();
     let mut tmax = 0u64;
     for h in handles {
@@ -268,6 +292,7 @@ async fn run_case(c: Case) -> String {
                 tmax = tmax.max(t);
                 res.push(r);
             }
+            Ok(Err(e)) if e.is_cancelled() => res.push("cancelled".into()),
             Ok(Err(_)) => res.push("err:panic".into()),
             Err(_) => {
                 abort.abort();
@@ -386,6 +411,7 @@ fn gen_cases(seed: u64, n: u64, thorough: bool) -> Vec<Case> {
         idem: false,
         prep: false,
         late: 0,
+        cancel: 0,
         seed: r.below(1 << 30),
     };
     // (a) every cut offset of a small script: header bytes 0..8, every body offset, between frames
@@ -404,7 +430,7 @@ fn gen_cases(seed: u64, n: u64, thorough: bool) -> Vec<Case> {
         }
     }
     // (b) every fault kind on the small script, both request kinds
-    for fault in ["none", "unsol", "stall", "ver85", "ver04", "ver83", "ver05", "garb00000000000000000000", "garb8400000177000000", "garb84", "garb840000010800ffffff0001", "garbffffffffffffffffffffffff"] {
+    for fault in ["none", "slow", "ccfin", "ccrst", "unsol", "stall", "ver85", "ver04", "ver83", "ver05", "garb00000000000000000000", "garb8400000177000000", "garb84", "garb840000010800ffffff0001", "garbffffffffffffffffffffffff"] {
         for prep in [false, true] {
             let mut c = base(&mut r);
             c.fault = fault.into();
@@ -435,7 +461,10 @@ fn gen_cases(seed: u64, n: u64, thorough: bool) -> Vec<Case> {
             1 => 9 + r.below(4) as usize,
             _ => r.below(maxoff as u64) as usize,
         };
-        c.fault = match r.below(16) {
+        c.cancel = if r.chance(1, 5) { r.range(1, c.n as u64) as usize } else { 0 };
+        c.fault = match r.below(18) {
+            16 => "slow".into(),
+            17 => (*r.pick(&["ccfin", "ccrst"])).into(),
             0..=3 => "fin".into(),
             4..=7 => "rst".into(),
             8 => "unsol".into(),
